@@ -11,6 +11,7 @@ import tempfile
 import common
 import worldsim
 from common import Rng, mix
+from gen import ProgGen, Scope
 
 TICK_LIMIT = 100_000
 AS_CAP = 1536 << 20  # address-space cap of a sandboxed child
@@ -48,6 +49,28 @@ def families(r):
         ("nested-loops", f"let c = 0 for a in [1, 2, 3, 4, 5, 6, 7, 8, 9, 10] {{ for b in [1, 2, 3, 4, 5, 6, 7, 8, 9, 10] {{ let i = 0 while i < {r.randint(10, 400)} {{ i += 1 c += 1 }} }} }} c", None),
         (f"recursion-depth-{d}", f"fun deep(n) {{ if n == 0 {{ 0 }} else {{ 1 + deep(n - 1) }} }} deep({r.choice([10, 900, 998, 999, 1000, 1001, 1500])})", None),
     ]
+    # Never-ending loops whose bodies come from the general program generator: arbitrary
+    # control flow (continue / break out of the inner loop, nested loops later in the body,
+    # calls, closures, matches) must still be cut off by the step budget.
+    for j in range(3):
+        g = ProgGen(r.fork("genbody", j), size=8, tag=f"z{j}", allow_throw=False)
+        defs = g.gen_defs()
+        sc = Scope()
+        c = f"gz{j}"
+        sc.add("I", "i" + g.tag + "0")  # read-only by the generator's convention
+        body = [f"i{g.tag}0 += 1"]
+        for _ in range(r.randint(2, 5)):
+            k = r.below(4)
+            if k == 0:
+                body.append(f"if {g.bool_expr(sc, 1)} {{ continue }}")
+            elif k == 1:
+                body.append(f"if {g.bool_expr(sc, 1)} {{ break }}")
+            else:
+                g.budget = 4
+                g.loop_depth = 1
+                body.append(g.stmt(sc))
+        src = "\n".join(defs) + f"\nlet i{g.tag}0 = 0 while True {{ while True {{ {' '.join(body)} }} }}"
+        fams.append((f"genbody-{j}", src, False))
     return fams
 
 
@@ -118,7 +141,7 @@ class C25:
                     defs.append(rest[:nl])
                     rest = rest[nl + 1:]
                     continue
-                if rest.startswith(("fun ", "struct ", "method ")) and not rest.startswith("fun("):
+                if rest.startswith(("fun ", "struct ", "method ", "enum ")) and not rest.startswith("fun("):
                     depth = 0
                     for j, ch in enumerate(rest):
                         if ch == "{":
